@@ -68,6 +68,7 @@ type verifC16Batch struct {
 	RDrops int   `json:"rdrops"` // report.Drops
 	SumMs  int64 `json:"sum_ms"` // report: round(Average * count)
 	Named  bool  `json:"named"`  // report carries the metrics name
+	Many   int   `json:"many"`   // anonymous tasks received (addmany)
 	// a report writer was installed when this period was executed
 	Written bool `json:"written"`
 }
@@ -137,6 +138,10 @@ func (c *verifC16Tap) Execute(v any) {
 	}
 	if pair, ok := v.(tasksDurationPair); ok {
 		for _, t := range pair.tasks {
+			if t.Description == "" {
+				b.Many++
+				continue
+			}
 			id, _ := strconv.Atoi(t.Description)
 			b.IDs = append(b.IDs, id)
 		}
@@ -212,6 +217,10 @@ func TestVerifDriverC16(t *testing.T) {
 					mu.Lock()
 					adds[k].Ret = p.Next()
 					mu.Unlock()
+				}
+			case "addmany": // N anonymous tasks of 1 ms each, in one go
+				for i := 0; i < op.N; i++ {
+					m.Add(Task{Duration: time.Millisecond})
 				}
 			case "drop":
 				for i := 0; i < op.N; i++ {
